@@ -40,6 +40,7 @@ def run(ctx):
     ctx.call(N.clean_decision_table, "6c")
     ctx.call(GR.dependency_lookup, "7")
     ctx.call(GR.identity_forms, "8")
+    ctx.call(GR.node_objects, "9")
 
 
 NODE = "cartgraph/node.py"
